@@ -60,3 +60,13 @@ Proof.
   - apply H. apply in_seq. lia.
   - apply in_seq in Hh. apply H. lia.
 Qed.
+
+Lemma cnt_sub f g n : (forall h, h < n -> g h = true -> f h = true) ->
+  cnt (fun h => f h && negb (g h)) n = cnt f n - cnt g n /\ cnt g n <= cnt f n.
+Proof.
+  induction n as [|n IH]; intros H; simpl; [split; lia|].
+  destruct IH as [A B]; [intros; apply H; auto; lia|].
+  destruct (g n) eqn:G.
+  - rewrite (H n) by (auto; lia). simpl. split; lia.
+  - destruct (f n); simpl; split; lia.
+Qed.
